@@ -20,7 +20,9 @@ def run(ctx):
     RK.text_methods_use_chars(ctx, "R15.j")
     RK.punctuation_table(ctx, "R15.k")
     RK.lower_rules(ctx, "R15.l")
-    return info("R15.a: stage order on both builder chains (normalize first; fin before split; split before strip/pos/stem; "
+    from . import r_lang as _RL
+    _RL.table_rules(ctx, None, None, "R15.o", None, None, rule_m="R15.o")
+    return info("R15.o: reduction tables are closed under case (including characters that only map TO a key, such as U+1E9E) and Lang::new starts empty. R15.a: stage order on both builder chains (normalize first; fin before split; split before strip/pos/stem; "
                 "strip before pos/stem; lower before pos/stem); R15.b/c: query and record tokenisers run the same stages with "
                 "equal split/strip class sets {Whitespace,Control,Punctuation}/{NotAlphaNum}, fin(false) only for queries; "
                 "R15.d: every Text method that filters/replaces `words` renumbers offsets afterwards; R15.e: emptied words are "
